@@ -376,7 +376,7 @@ def wire(ctx, report, facts, config, rule="C07.WIRE"):
     report.ob("C07.NOFETCH", "BatchControllerSystem::SystemData", len(sd) == 1, "one System impl for the batch wrapper", config=config)
 
 
-def run(ctx, report):
+def _run_rules(ctx, report):
     for config in ctx.configs:
         facts = ctx.facts(config)
         report.guard("C07.UNION", union, ctx, report, facts, config)
@@ -388,3 +388,10 @@ def run(ctx, report):
         report.guard("C07.SLOT", S.slot, ctx, report, "C07.SLOT", facts, config)
         # the tables fetch_all_* read only ever grow (member level: `extend` in insert only)
         report.guard("C07.ACCUM", S.lockstep, ctx, report, "C07.ACCUM", facts, config)
+
+
+def run(ctx, report):
+    _run_rules(ctx, report)
+    from .. import shared as _S
+    for config in ctx.configs:
+        report.guard("C07.ENCAPSULATED", _S.encapsulated, ctx, report, "C07.ENCAPSULATED", ctx.facts(config), config, "C07")
